@@ -208,7 +208,7 @@ func c02Eval(c *Ctx, cs Case) {
 	n := 0
 	mutateBlob(c, sig, func(class string, b []byte) {
 		n++
-		if n%c.N(97, 7) == 0 { // a sample of the generic blob mutations (C04 runs them all on the blob itself)
+		if n%c.P(97, 7) == 0 { // a sample of the generic blob mutations (C04 runs them all on the blob itself)
 			c02Pair(c, cs, withTable(signed, winCert(b)), right, "blob-"+class, "right")
 		}
 	})
